@@ -15,6 +15,7 @@ import DymVerif.Gen.Guards
                                      -> the `tx` observations | rej noteth | rej unknown-ext
                                         (M-Ante `runAnte` over the regenerated route table; r = ReCheckTx)
   wrappers                           -> sorted Go types of the wrappers that execute packed messages
+  stored <G|P> <leaf>                -> <verdict of the submission> | <verdict of group.MsgExec or ->
   rows                               -> number of Msg rows of the regenerated guard table (= routed custom-module message types)
   signer <module.Msg>                -> Go field path of the message's signer (regenerated table)
   own <obj> <actor>                  -> ok          (fixture: object `obj` is owned by actor)
@@ -116,6 +117,12 @@ def step (s : St) (f : List String) : St × String :=
     let names := realWrappers.filterMap (fun w =>
       if w.2 = Acc.msgs then (Gen.Ante.typeNames.lookup w.1) else none)
     (s, ",".intercalate (names.mergeSort (fun a b => decide (a ≤ b))))
+  | ["stored", w, l] =>
+    -- a proposal (gov v1 / group) carrying one leaf, submitted through the ante; when it passes and is a
+    -- group proposal, the later `group.MsgExec` (alias Q: no packed messages) goes through the ante too
+    let sub := anteCheck Gen.Ante.config [.node (aliasId s w) [.node (aliasId s l) [] tyOther false] tyOther false]
+    let ex := if sub.isNone && w = "P" then showErr s (anteCheck Gen.Ante.config [.node (aliasId s "Q") [] tyOther false]) else "-"
+    (s, showErr s sub ++ " | " ++ ex)
   | ["rows"] => (s, toString (Gen.Guards.entries.filter (·.isMsg)).length)
   | ["signer", m] => (s, (Gen.Guards.signers.lookup m).getD "?")
   | ["own", o, a] => ({ s with owners := setOwner s.owners (nat! o) (nat! (a.drop 1).toString) }, "ok")
